@@ -167,6 +167,8 @@ def step_contract(cfg: ivp.Cfg):
 
     def instances(tier):
         out = []
+        if getattr(cfg, "thorough_only", False) and tier != "thorough":
+            return out
 
         def make(rng):
             solver, state = ivp.make_state(cfg, rng)
